@@ -2,6 +2,8 @@
 Only the lost-future / lost-wake-up verdicts of that family's monitor count here; every history is still
 replayed on the component machine."""
 import p_c07 as base
+LINE_PREEMPT = False     # the Throttle monitor reconstructs queue / counter state from the ADJACENCY of log entries of one thread:
+#                          runs with line-level preemption (drive.py) would be misread by it
 
 PROP = "C03"
 MACHINE = base.MACHINE
